@@ -1,6 +1,7 @@
 import QuantemModel.Core.Proto
 import QuantemModel.Model.Drift
 import QuantemModel.Model.DriftSession
+import QuantemModel.Model.DriftBatch
 open Lean QuantemModel QuantemModel.Proto QuantemModel.Registration QuantemModel.Drift QuantemModel.DriftSession
 
 namespace DrvC15
@@ -92,6 +93,35 @@ def opSplat (j : Json) : Except String Json := do
   let arr := pts.toArray
   let pt : Nat → Rat × Rat := fun p => arr[p]!
   pure (Json.mkObj [("w", matToJson ratToJson rows cols (weightMapAt rows cols arr.size pt))])
+
+/-- the batch loop of `bilinear_kde` as written (Model/DriftBatch.lean): slices of `generate_batches` and the weight map
+accumulated slice by slice; `batch` = -1 stands for `max_batch_size=None` -/
+def opSplatBatched (j : Json) : Except String Json := do
+  let rows ← natField j "rows"
+  let cols ← natField j "cols"
+  let b ← intField j "batch"
+  let mb : Option Nat := if b < 0 then none else some b.toNat
+  let pts ← (← arrField j "pts").toList.mapM fun p => do
+    let a ← p.getArr?
+    if a.size != 2 then throw "pt" else
+    pure ((← ratOfJson a[0]!), (← ratOfJson a[1]!))
+  let arr := pts.toArray
+  let pt : Nat → Rat × Rat := fun p => arr[p]!
+  match kdeBatches arr.size mb with
+  | none => pure (Json.mkObj [("raises", Json.bool true)])
+  | some bs =>
+    pure (Json.mkObj [("raises", Json.bool false),
+      ("batches", Json.arr (bs.map fun q => Json.arr #[natJ q.1, natJ q.2]).toArray),
+      ("w", matToJson ratToJson rows cols (weightMapBatched rows cols bs pt))])
+
+/-- `utils.generate_batches(n, max_batch=mb)` alone -/
+def opBatches (j : Json) : Except String Json := do
+  let n ← natField j "n"
+  let mb ← natField j "mb"
+  match subdivideBatches n mb with
+  | none => pure (Json.mkObj [("raises", Json.bool true)])
+  | some sizes => pure (Json.mkObj [("raises", Json.bool false),
+      ("batches", Json.arr ((generateBatches sizes 0).map fun q => Json.arr #[natJ q.1, natJ q.2]).toArray)])
 
 /-- C13's NumPy estimator (`fft_input=True, fft_output=True`) as the registration routine of
 `align_translation` (Float) -/
@@ -260,6 +290,8 @@ def step (st : Option (St Float)) (j : Json) : Option (St Float) × Json :=
     let r ← (match op with
       | "coords" => opCoords j
       | "splat" => opSplat j
+      | "splatb" => opSplatBatched j
+      | "batches" => opBatches j
       | "align" => opAlign j
       | "affine_candidates" => opAffineCandidates j
       | _ => throw s!"unknown op {op}")
